@@ -3362,7 +3362,8 @@ static Token *function(Token *tok, Type *basety, VarAttr *attr) {
     fn->is_inline = attr->is_inline;
   }
 
-  fn->is_root = !(fn->is_static && fn->is_inline);
+  if (!(fn->is_static && fn->is_inline))
+    fn->is_root = true;
 
   if (consume(&tok, tok, ";"))
     return tok;
